@@ -500,5 +500,9 @@ def run(ctx) -> None:
     nq = check_quantity_source_unit(ctx, 'W7')
     nq += check_value_unit_pairing(ctx, 'W7')
     ctx.floor('W7', nq, 5, 'quantity/relabel sites')
+    ctx.rule('W8', 'the `Interest Rate` line states the rate the run used: it is computed from the synchronised Discount Rate, in its own unit (shared)')
+    from rules.rate_sync import check_rate_sync
+    _n = check_rate_sync(ctx, 'W8', only_functions={'sync_interest_rate'})
+    ctx.floor('W8', _n, 4, 'conversion assignments / sync functions of the rate family')
     ctx.undecided('format() rounding to the displayed precision', 'pint conversion numerics', 'AGS writer (not runnable offline): informational only')
     ctx.assume('the single pipeline prints after Calculate (C20 N1)')
